@@ -624,8 +624,14 @@ func (s *sqlStore) getSubjectVPsOnService(serviceID string, subjectDIDs []did.DI
 }
 
 // wipeOnSeedChange wipes the store on a testSeed change.
+func (s *sqlStore) wipeOnSeedChange(serviceID string, seed string) error {
+	_, err := s.wipeIfSeedChanged(serviceID, seed)
+	return err
+}
+
+// wipeIfSeedChanged wipes the store on a testSeed change.
 // It returns true if the store was wiped (and the timestamp of the service was reset to 0).
-func (s *sqlStore) wipeOnSeedChange(serviceID string, seed string) (bool, error) {
+func (s *sqlStore) wipeIfSeedChanged(serviceID string, seed string) (bool, error) {
 	wiped := false
 	err := s.db.Transaction(func(tx *gorm.DB) error {
 		// get the service
